@@ -278,6 +278,20 @@ def rand_expr(rng, depth):
     return rand_expr(rng, depth - 1) + sp + op + sp + rand_expr(rng, depth - 1)
 
 
+def rand_chain(rng):
+    "long flat chains and deep parenthesis towers"
+    n = rng.randint(8, 40)
+    parts = []
+    for i in range(n):
+        x = rng.choice(['1', '2', '3', '0.5', '10', '(4-1)', '-2', '+3', '(2*(1+1))'])
+        parts.append(x)
+        if i < n - 1:
+            parts.append(rng.choice(['+', '-', '*', '/', '+', '-']))
+    s = ''.join(parts)
+    d = rng.randint(0, 12)
+    return '(' * d + s + ')' * d
+
+
 OPTS = (None, {'lookAhead': False}, {'whitespace': False})
 
 
@@ -307,7 +321,8 @@ def run_shard(desc, ctx):
             rng = ctx.rng
             garbage = list('0123456789.+-*/\\() \tabx,%^e') + ['\xa0', '\n', '1e3', '٣']
             for _ in range(desc['n']):
-                check_eval(rand_expr(rng, rng.randint(2, 6)), 'eval:random', ctx, api)
+                check_eval(rand_expr(rng, rng.randint(2, 6) if rng.random() < 0.8 else rng.randint(7, 10)), 'eval:random', ctx, api)
+                check_eval(rand_chain(rng), 'eval:random', ctx, api)
                 g = ''.join(rng.choice(garbage) for _ in range(rng.randint(1, 8)))
                 check_eval(g, 'eval:garbage', ctx, api)
                 e = rng.choice(['a ', 'foo(', 'x=', '']) + rand_expr(rng, rng.randint(1, 4)) + rng.choice(['', ')', ' )', ') x', ' b'])
